@@ -256,8 +256,12 @@ def run_fide_third_party(ctx):
     sc = fmt.Scratch()
     try:
         n_cases = 150 if ctx.tier == "quick" else 2000
-        for i in range(n_cases):
-            m = fide_model(g, g.rng.choice([1, 2, 4, 7, 12]))
+        def models():
+            for i in range(n_cases):
+                yield fide_model(g, g.rng.choice([1, 2, 4, 7, 12]))
+            yield from gen.nest_models(FIDE_OPS, chunk=4)
+            yield from gen.case_twin_models()
+        for m in models():
             d = emit_fide(m, g.rng, g)
             path = sc.path("xml")
             fmt.write_xdoc(d, path, pretty=g.rng.random() < 0.6)
@@ -387,8 +391,11 @@ def run_fama(ctx):
     sc = fmt.Scratch()
     try:
         n_cases = 150 if ctx.tier == "quick" else 2000
-        for i in range(n_cases):
-            m = fama_model(g, g.rng.choice([1, 2, 4, 7, 12]))
+        def models():
+            for i in range(n_cases):
+                yield fama_model(g, g.rng.choice([1, 2, 4, 7, 12]))
+            yield from gen.case_twin_models(ops=("REQUIRES", "EXCLUDES"))
+        for m in models():
             d = emit_fama(m, g.rng, g)
             path = sc.path("xml")
             fmt.write_xdoc(d, path, pretty=g.rng.random() < 0.6)
